@@ -133,6 +133,100 @@ Definition check_canonical_version (path vers : str) : bool :=
            end
   end.
 
+(* go/version Lang and Compare (through internal/gover), as used by SortBlocks to decide
+   whether the file's go version is at least 1.21 *)
+Record gover := mkGover { gv_major : str; gv_minor : str; gv_patch : str; gv_kind : str; gv_pre : str }.
+Definition gover_zero : gover := mkGover [] [] [] [] [].
+
+Definition cut_int (x : str) : option (str * str) :=
+  let (d, r) := span is_digit x in
+  match d with
+  | [] => None
+  | c :: d' => if (c =? 48) && negb (match d' with [] => true | _ => false end) then None else Some (d, r)
+  end.
+
+Definition gover_cmp_int (x y : str) : Z :=
+  if str_eqb x y then 0
+  else if (length x <? length y)%nat then -1
+  else if (length y <? length x)%nat then 1
+  else if str_ltb x y then -1 else 1.
+
+Definition gover_parse (x : str) : gover :=
+  match cut_int x with
+  | None => gover_zero
+  | Some (major, x1) =>
+      match x1 with
+      | [] => mkGover major [48] [48] [] []
+      | c :: x2 =>
+          if negb (c =? 46) then gover_zero
+          else match cut_int x2 with
+               | None => gover_zero
+               | Some (minor, x3) =>
+                   match x3 with
+                   | [] => mkGover major minor (if gover_cmp_int minor (B "21") <? 0 then [48] else []) [] []
+                   | c3 :: x4 =>
+                       if c3 =? 46 then
+                         match cut_int x4 with
+                         | Some (patch, []) => mkGover major minor patch [] []
+                         | _ => gover_zero
+                         end
+                       else
+                         let (kind, x5) := span (fun b => negb (is_digit b)) x3 in
+                         if negb (forallb is_lower kind) then gover_zero
+                         else match kind with
+                              | [] => gover_zero
+                              | _ => match x5 with
+                                     | [] => mkGover major minor [] kind []
+                                     | _ => match cut_int x5 with
+                                            | Some (pre, []) => mkGover major minor [] kind pre
+                                            | _ => gover_zero
+                                            end
+                                     end
+                              end
+                   end
+               end
+      end
+  end.
+
+Definition gover_compare (x y : str) : Z :=
+  let vx := gover_parse x in
+  let vy := gover_parse y in
+  let c1 := gover_cmp_int (gv_major vx) (gv_major vy) in
+  if negb (c1 =? 0) then c1 else
+  let c2 := gover_cmp_int (gv_minor vx) (gv_minor vy) in
+  if negb (c2 =? 0) then c2 else
+  let c3 := gover_cmp_int (gv_patch vx) (gv_patch vy) in
+  if negb (c3 =? 0) then c3 else
+  match str_cmp (gv_kind vx) (gv_kind vy) with
+  | Lt => -1
+  | Gt => 1
+  | Eq => gover_cmp_int (gv_pre vx) (gv_pre vy)
+  end.
+
+Definition gover_lang (x : str) : str :=
+  let v := gover_parse x in
+  match gv_minor v with
+  | [] => gv_major v
+  | _ => if str_eqb (gv_major v) [49] && str_eqb (gv_minor v) [48] then gv_major v
+         else gv_major v ++ [46] ++ gv_minor v
+  end.
+
+Definition strip_go (v : str) : str :=
+  let v' := fst (span (fun c => negb (c =? 45)) v) in
+  if has_prefix v' (B "go") then skipn 2 v' else [].
+
+Definition version_lang (x : str) : str :=
+  match gover_lang (strip_go x) with
+  | [] => []
+  | v => B "go" ++ v
+  end.
+
+Definition version_compare (x y : str) : Z := gover_compare (strip_go x) (strip_go y).
+
+(* SortBlocks: useSemanticSortForExclude for a file whose go directive is gov *)
+Definition use_semantic_sort (gov : str) : bool :=
+  0 <=? version_compare (version_lang (B "go" ++ gov)) (B "go1.21").
+
 (* ---------------------------------------------------------------- the state *)
 
 Definition lid := nat.
